@@ -34,6 +34,10 @@ from hypothesis import HealthCheck, Phase, Verbosity, given, settings  # noqa: E
 from hypothesis.stateful import RuleBasedStateMachine, run_state_machine_as_test  # noqa: E402
 
 
+# When True, checks must not exclude the input classes of KNOWN_FINDINGS.json (used to replay a known finding).
+STRICT = bool(int(os.environ.get("VERIF_STRICT", "0")))
+
+
 class Violation(AssertionError):
     """The code under test disagrees with the oracle of a listed property."""
 
